@@ -57,6 +57,29 @@ def _shape_words(maxlen=6):
 
 SHAPE_WORDS = _shape_words()
 
+# systematic stratum: every gate sequence of length <= 3 over the 16 gate instances on 2 qubits (5 single-qubit gates x 2
+# qubits + 3 two-qubit gates x 2 orientations), with a full query after every append (the shape the test-suite lacks)
+GATE_INSTANCES_2Q = [(g, q) for g in dp.SINGLE_NAMES for q in (0, 1)] + [(g, a, b) for g in dp.TWO_NAMES for (a, b) in ((0, 1), (1, 0))]
+N_SYSTEMATIC = sum(len(GATE_INSTANCES_2Q) ** L for L in (1, 2, 3))  # 4368
+
+
+def _systematic_plan(k):
+    L = 1
+    while k >= len(GATE_INSTANCES_2Q) ** L:
+        k -= len(GATE_INSTANCES_2Q) ** L
+        L += 1
+    seq = []
+    for _ in range(L):
+        seq.append(GATE_INSTANCES_2Q[k % len(GATE_INSTANCES_2Q)])
+        k //= len(GATE_INSTANCES_2Q)
+    ops = []
+    for j, g in enumerate(seq):
+        ops.append({'op': 'append', 'c': 0, 'g': g[0], 'q': list(g[1:])})
+        ops.append({'op': 'form', 'c': 0} if j % 2 == 0 else {'op': 'apply_all', 'c': 0})
+    ops.append({'op': 'export', 'c': 0})
+    ops.append({'op': 'apply_all', 'c': 0})
+    return {'engine': PROPERTY, 'config': {'nmax': 2, 'lru': None, 'entropy': 0, 'systematic': True}, 'ops': ops}
+
 
 def generate(run_seed, index, tier):
     st = srng.Streams(run_seed)
@@ -78,7 +101,12 @@ def generate(run_seed, index, tier):
     qweights = [(k, cfg_r.choice([0, 1, 1, 2, 4])) for k in QUERY_KINDS]
     if sum(w for _, w in qweights) == 0:
         qweights = [(k, 1) for k in QUERY_KINDS]
-    stratified = index < 3 * len(SHAPE_WORDS)
+    base = 3 * len(SHAPE_WORDS)
+    if thorough and base <= index < base + N_SYSTEMATIC:
+        return _systematic_plan(index - base)
+    if (not thorough) and base <= index < base + 300:
+        return _systematic_plan(cfg_r.randrange(N_SYSTEMATIC))
+    stratified = index < base
     if stratified:
         word = SHAPE_WORDS[index % len(SHAPE_WORDS)]
         if index < len(SHAPE_WORDS):  # the plainest stratum: one circuit, no faults, default caches
